@@ -31,6 +31,15 @@ Definition run_hdr_walk (p : profile) (bs : list byte) : list string :=
   | _ => lines
   end.
 
+(* hiters <bytes> [ops]: iterator histories over the tags of a loaded header (same operations as `iters`) *)
+Definition run_hiters (p : profile) (bs : list byte) (ops : list arg) : list string :=
+  let m := {| m_base := 0; m_bytes := bs |} in
+  let '(l, lines) := run_hdr_core p m in
+  match l with
+  | Val r => (lines ++ run_iter_ops p HHdrTagH m (d_off r + 16) (d_plen r) (sHTagLine m) [] ops)%list
+  | _ => lines
+  end.
+
 Definition run_hdrnull (p : profile) : list string :=
   [ line "load" (sRes (fun _ : dref => "") (hdr_load p true {| m_base := 0; m_bytes := [] |})) ].
 
